@@ -208,7 +208,7 @@ def _construct(ux, case, ctx):
     if ctor == "ds-ugrid":
         ds, _ = writers.ugrid_dataset(mesh, {"start_index": d["start_index"], "fill": -1 if d["fill"] is None else (FILL if d["fill"] == "int64min" else d["fill"]), "dtype": "int64" if d["fill"] == "int64min" else d["dtype"], "names": 1, "lon360": d["lon360"], "face_coords": True, "extras": ["edge_node_connectivity"]})
     elif ctor == "ds-mpas":
-        ds, _ = writers.mpas_dataset(mesh, radius=d["radius"])
+        ds, _ = writers.mpas_dataset(mesh, radius=d["radius"], int_dtype=d["dtype"])
     elif ctor == "ds-esmf":
         ds, _ = writers.esmf_dataset(mesh, {"start_index": d["start_index"], "lon360": d["lon360"], "dtype": d["dtype"]})
     elif ctor == "ds-scrip":
@@ -279,6 +279,25 @@ def run_case(case, ctx):
                     getattr(tgt, arg)
             except (ImportError, ModuleNotFoundError):
                 continue
+            if what == "set-node_lon":
+                # geometry exports must follow each side's own coordinates (mutated side first, so that a cache
+                # shared between the two sides would hand its frame to the other one)
+                ctx.ev("copy_independent_geometry")
+                try:
+                    FILL = build.consts()[1]
+                    sides[side].to_geodataframe(periodic_elements="ignore", engine="geopandas")  # mutated side first
+                    gg = sides[other]
+                    gdf = gg.to_geodataframe(periodic_elements="ignore", engine="geopandas")
+                    lon = np.asarray(gg.node_lon.values, float)
+                    conn = np.asarray(gg.face_node_connectivity.values).reshape(gg.n_face, -1)
+                    got_rows = [sorted({round(float(x), 3) for x, _ in gm.exterior.coords}) for gm in gdf["geometry"]]
+                    want_rows = [sorted({round(float(np.float32(lon[j])), 3) for j in row if j != FILL}) for row in conn]
+                    if got_rows != want_rows:
+                        k = next((i for i, (a, b) in enumerate(zip(got_rows, want_rows)) if a != b), 0)
+                        fails.append(Failure("copy_independent", site, "geometry-of-other-side", f"step {si}: after the node_lon setter on the {side}, to_geodataframe() of the untouched {other} has {len(got_rows)} polygons; polygon {k} has longitudes {got_rows[k] if k < len(got_rows) else None}, its own node_lon gives {want_rows[k] if k < len(want_rows) else None}"))
+                        return fails
+                except (ImportError, ModuleNotFoundError):
+                    pass
             ctx.ev("copy_independent")
             now = observe(sides[other])
             r = diff(ref_obs[other], now)
